@@ -207,6 +207,9 @@ def run(ctx):
             ctx.ob("R11.conn", "%s.%s class-level container" % (CONN_CLASS, an), False,
                    "%s:%d" % (ent[0].path, v.lineno), "shared by all connections")
     ctx.require("R11.conn", nconn, 5, "connection attribute stores in handlers")
+    # R11.regdep: nothing observable may be control-dependent on whether an
+    # object happens to be cached in an object registry
+    _regdep(ctx)
     # R11.reg
     e4 = e4mod.get(ctx.model)
     for f in e4.findings:
@@ -218,3 +221,55 @@ def run(ctx):
             continue
         ctx.ob("R11.reg", f.construct, f.ok, f.site, f.detail)
     ctx.require("R11.reg", len(e4.findings), 8, "registry rule instances")
+
+
+def _regdep(ctx):
+    from ..events import each_event, frame_type, construct_of
+    from ..e3 import pc_truth
+    from ..terms import walk
+    model = ctx.model
+    interp = model.interp
+    ctx.rule("R11.regdep", "no stored-state change, frame or raise is control-dependent "
+             "on whether an object is cached in Server._apps / AppNamespace._mailboxes "
+             "(the caches are empty after a restart; only listener sets may matter)")
+    regs = set(interp.registries.keys())
+    occ = {}
+    for p, e, loops in each_event(model, model.runtime_entries(),
+                                  ("sql", "commit", "send", "raise")):
+        if e["k"] == "sql" and not e["stmt"].mutating:
+            continue
+        if e["k"] == "commit" and not e.get("was_dirty"):
+            continue
+        pol = {}
+        for tt, v in pc_truth(e["pc"]).items():
+            for x in walk(tt):
+                if x[0] == "reg" and x[1][0] == "obj" and (x[1][1], x[2]) in regs:
+                    # only direct membership / emptiness tests
+                    if tt[0] == "cmp" and tt[1] == "in" and tt[3] == x:
+                        pol.setdefault((x[1][1], x[2]), set()).add(v)
+                    elif tt == x:
+                        pol.setdefault((x[1][1], x[2]), set()).add(v)
+        key = (e["k"], e["site"], e["stack"])
+        ent = occ.setdefault(key, {"event": e, "pols": []})
+        ent["pols"].append(pol)
+    n = 0
+    for key, ent in occ.items():
+        for r in regs:
+            vals = [frozenset(pl.get(r, ())) for pl in ent["pols"]]
+            if not vals or any(len(v) == 0 for v in vals):
+                continue
+            allv = set()
+            for v in vals:
+                allv |= v
+            if len(allv) == 1:
+                n += 1
+                e = ent["event"]
+                what = construct_of(e) if e["k"] != "send" else "%s: send(%s)" % (
+                    e["stack"][-2] if len(e["stack"]) > 1 else e["func"], frame_type(e))
+                ctx.ob("R11.regdep", "%s depends on %s.%s" % (what, r[0], r[1]), False, e,
+                       "this happens only when the key is %s the in-memory registry: a "
+                       "server rebuilt from the database (empty registry) behaves "
+                       "differently from one that was kept running" % (
+                           "in" if True in allv else "not in"))
+    ctx.ob("R11.regdep", "observable events analysed", True, "", "%d sites" % len(occ))
+    ctx.counts["R11.regdep: observable event sites"] = len(occ)
